@@ -119,10 +119,15 @@ class Run:
     def expect_paths(self, results, name, instance=None, allow_raise=()):
         """Every path must end in return (or a raise of an allowed type). Unsupported -> undecided."""
         ok = True
-        for r in results:
+        for pi, r in enumerate(results):
             if r.outcome == "unsupported":
                 self.undecide(name, f"unsupported construct: {r.value}", instance)
                 ok = False
+            changed = getattr(r, "module_state_changed", None)
+            if changed:
+                # the explored repository code left something in a module-level container: its next call would depend on this one
+                self.add(f"{name}/keeps-no-module-level-state/path{pi}", r.hyps, z3.BoolVal(False), "property", instance or {},
+                         {"changed_module_level_containers": [f"{a}::{b}" for a, b in changed]})
         return ok
 
     # ---------------------------------------------------------------- canaries / vacuity
